@@ -129,7 +129,7 @@ PROPS['C12'] = dict(coq=['Properties/C12.v'], **hist_prop(
 PROPS['C17'] = dict(coq=['Properties/C17.v'], **hist_prop(
     'C17', {'C17'}, W(sat=6, find=12), 1500, 40000, hg={'odd': 'mix'}))
 PROPS['C01'] = dict(coq=['Properties/C01.v'], **hist_prop(
-    'C01', {'C01'}, W(tostr=2), 1200, 30000, hg={'odd': False}))
+    'C01', {'C01'}, W(tostr=2), 1200, 30000, hg={'odd': False, 'esc': 0.15}))
 PROPS['C15'] = dict(coq=['Properties/C15.v'], **hist_prop(
     'C15', {'C15'}, W(tostr=1), 1000, 30000, hg={'odd': True, 'esc': 0.2}))
 
